@@ -265,8 +265,8 @@ unit("lib.buffer.push_word.anydouble", "buffer/push-word, ALL numbers incl. nega
      "h_buffer_word", cf("cfun_buffer_word"), cls="bounded", bound="at most 2 pushed values", tier="thorough",
      disabled_reason="fails on the pinned tree (cfun_buffer_word overflow obligation on `(uint32_t) number`): undefined by C99 6.3.1.4 for NaN and values outside (-1, 2^32); on x86-64 / AArch64 the converted value differs from the argument, so `word != number` raises 'cannot convert ... to machine word' as documented - (buffer/push-word @\"\" -1), 4294967296, math/nan all raise; no observable misbehaviour",
      assumes=BA, **dict(PW, defines=PW["defines"] + ["-DLIB_WORD_ANY_DOUBLE"], unwindset=dict(B["unwindset"], **{W("cfun_buffer_word") + ".0": 5})), mutants=WORD_M[:1])
-PS = dict(B, cbmc=["--sat-solver", "cadical"])
-PUSHB = "at most 2 pushed arguments (argc <= 3, the argument loop reallocates and is unwound); buffer size and byte-sequence length unbounded"
+PS = dict(B, cbmc=["--sat-solver", "cadical"], defines=B["defines"] + ["-DLIB_PUSH_MAXARGC=2"])
+PUSHB = "one pushed argument (argc <= 2, the argument loop reallocates and is unwound) from ANY well-formed buffer - the step of an induction over the arguments, each of which is appended to whatever buffer the previous ones left; buffer size and byte-sequence length unbounded (two arguments at once: > 20 min)"
 SELFDOM = "domain restriction: the buffer is pushed onto itself only while shorter than 1 GiB (`buffer->count + view.len` overflows int32 otherwise; units str.cfun.buffer.push_at.selfhuge / lib.buffer.push_string.selfhuge)"
 unit("lib.buffer.push_string", "buffer/push-string, every buffer size: arity >= 1; the byte sequences are appended in order - the buffer itself contributes its content at that moment (no use of a stale block after growth); exact new length; prefix unchanged; raises instead of exceeding INT32_MAX; memcpy ranges valid and disjoint; foreign memory never reallocated; returns buffer",
      "h_buffer_chars", cf("cfun_buffer_chars"), cls="bounded", bound=PUSHB, tier="thorough", timeout=600,
@@ -278,7 +278,7 @@ unit("lib.buffer.push_string", "buffer/push-string, every buffer size: arity >= 
 unit("lib.buffer.push_string.selfhuge", "buffer/push-string, ALL sizes: no signed overflow when a buffer is pushed onto itself",
      "h_buffer_chars", cf("cfun_buffer_chars"), cls="bounded", bound=PUSHB, tier="thorough", timeout=600,
      disabled_reason="fails on the pinned tree (cfun_buffer_chars overflow obligation on `buffer->count + view.len`): for a buffer of >= 1 GiB pushed onto itself the int32 sum overflows before janet_buffer_extra's 64-bit check (same pattern as buffer_push_impl, str.cfun.buffer.push_at.selfhuge); benign with wrap-around arithmetic (janet_buffer_ensure returns for the negative capacity, janet_buffer_push_bytes then raises 'buffer overflow')",
-     assumes=BA, **dict(PS, defines=B["defines"] + ["-DLIB_PUSH_SELF_ANY"], unwindset=dict(B["unwindset"], **{W("cfun_buffer_chars") + ".0": 4})),
+     assumes=BA, **dict(PS, defines=PS["defines"] + ["-DLIB_PUSH_SELF_ANY"], unwindset=dict(B["unwindset"], **{W("cfun_buffer_chars") + ".0": 4})),
      mutants=[mut("self-push-not-reserved", "buffer.c", "        if (view.bytes == buffer->data) {\n            janet_buffer_ensure(buffer, buffer->count + view.len, 2);\n            view.bytes = buffer->data;\n        }\n        janet_buffer_push_bytes(buffer, view.bytes, view.len);\n    }\n    return argv[0];\n}\n\nstatic int should_reverse_bytes",
                   "        janet_buffer_push_bytes(buffer, view.bytes, view.len);\n    }\n    return argv[0];\n}\n\nstatic int should_reverse_bytes", "memcpy model|pointer|postcondition|deallocated")])
 unit("lib.buffer.push", "buffer/push, every buffer size: arity >= 1; a number pushes its low byte, any other argument is fetched as a byte sequence and appended (the buffer itself contributes its content at that moment); exact new length and content in argument order; prefix unchanged; raises instead of exceeding INT32_MAX; foreign memory never reallocated; returns buffer",
@@ -331,8 +331,8 @@ unit("lib.array.slice", "array/slice: arity 1..3; returns a NEW well-formed arra
               mut("copy-end-elements", "array.c", "memcpy(array->data, view.items + range.start, sizeof(Janet) * (range.end - range.start));", "memcpy(array->data, view.items + range.start, sizeof(Janet) * (range.end));", "memcpy model|assigns")])
 
 CC = dict(mode="plain", src=["array.c"], link=["wrap.c", "util.c"], link_keep={"util.c": ["safe_memcpy"]}, harness=["lib_array_concat.c"], props=["C04", "C17"],
-          replace_calls=["janet_array_push:janet_array_push_stub", "janet_array_ensure:janet_array_ensure_stub"], defines=["-DLIB_MAXPART=2", "-DLIB_BLOCK=40", "-DLIB_MAXCAP=8"], unwind=4, cbmc=["--sat-solver", "cadical"])
-CCB = "at most 2 parts of at most 2 elements each (a part that is the array itself: the array then has at most 2 elements; the element loops are unwound); destination array of capacity 0..8, every length 0..capacity (all blocks allocated with a constant size of 40 elements, logical capacity tracked by the models)"
+          replace_calls=["janet_array_push:janet_array_push_stub", "janet_array_ensure:janet_array_ensure_stub"], defines=["-DLIB_MAXPART=2", "-DLIB_BLOCK=16", "-DLIB_MAXCAP=3"], unwind=4, cbmc=["--sat-solver", "cadical"])
+CCB = "at most 2 parts of at most 2 elements each (a part that is the array itself: the array then has at most 2 elements; the element loops are unwound); destination array of capacity 0..3, every length 0..capacity (all blocks allocated with a constant size of 16 elements, logical capacity tracked by the models)"
 CCA = ["janet_array_push / janet_array_ensure replaced by asserting models of their contracts (units seq.array.push, seq.array.ensure): ensure does nothing for capacity <= current capacity, else REPLACES the block (old block freed, elements at the two ghost positions kept); push raises at INT32_MAX elements, grows when full, stores x",
        "janet_indexed_view is a pure function of the value: a slot with the bits of slot 0 is the array itself (current data / count), any other array or tuple slot yields a separate readable view of 0..2 elements",
        "janet_getarray: slot 0 is a well-formed array of any size; janet_arity returns only for an accepted argc"]
@@ -340,12 +340,16 @@ M_STALE = lambda which: mut("stale-view-after-reservation", "array.c",
     "                    janet_array_ensure(array, newcount, 2);\n                    janet_indexed_view(argv[i], &vals, &len);\n                }" if which == "concat" else "            janet_array_ensure(array, newcount, 2);\n            janet_indexed_view(argv[i], &vals, &len);\n        }",
     "                    janet_array_ensure(array, newcount, 2);\n                }" if which == "concat" else "            janet_array_ensure(array, newcount, 2);\n        }", "pointer_dereference|C17|deallocated")
 M_NORES = mut("self-concat-not-reserved", "array.c", "                if (array->data == vals) {\n                    int32_t newcount = array->count + len;\n                    janet_array_ensure(array, newcount, 2);\n                    janet_indexed_view(argv[i], &vals, &len);\n                }\n", "", "pointer_dereference|C17|deallocated")
-unit("lib.array.concat", "array/concat: arity >= 1; array and tuple parts contribute their elements in order - the array itself its elements at that moment (the source view is re-fetched after the reservation: no read through a stale block) - any other part is appended as one element; exact new length; elements already present unchanged; returns arr",
-     "h_array_concat", cls="bounded", bound=CCB, assumes=CCA, functions=["cfun_array_concat"], mutants=[M_STALE("concat"), M_NORES], **CC)
-unit("lib.array.join", "array/join: arity >= 1; every part must be an array or tuple (else raises) and contributes its elements in order - the array itself its elements at that moment (view re-fetched after the reservation); exact new length; elements already present unchanged; returns arr",
-     "h_array_join", cls="bounded", bound=CCB, assumes=CCA, functions=["cfun_array_join"],
-     mutants=[M_STALE("join"),
-              mut("type-check-dropped", "array.c", "        if (!janet_indexed_view(argv[i], &vals, &len)) {\n            janet_panicf(\"expected indexed type for argument %d, got %v\", i, argv[i]);\n        }\n        if (array->data == vals) {", "        janet_indexed_view(argv[i], &vals, &len);\n        if (array->data == vals) {", "C17")], **CC)
+M_ARG0 = lambda which: mut("starts-at-slot-0", "array.c", "JanetArray *array = janet_getarray(argv, 0);\n    for (i = 1; i < argc; i++) {\n        %s" % ("switch (janet_type(argv[i])) {" if which == "concat" else "int32_t j, len = 0;"),
+                           "JanetArray *array = janet_getarray(argv, 0);\n    for (i = 0; i < argc; i++) {\n        %s" % ("switch (janet_type(argv[i])) {" if which == "concat" else "int32_t j, len = 0;"), "C17|unwind")
+for n in (1, 2, 3):
+    dd = dict(CC, defines=CC["defines"] + ["-DLIB_ARGC=%d" % n])
+    kw = dict(cls="bounded", bound="exactly %d argument(s); " % n + CCB, assumes=CCA, tier=("quick" if n < 3 else "thorough"), timeout=(120 if n < 3 else 400))
+    unit("lib.array.concat.a%d" % n, "array/concat with %d argument(s): array and tuple parts contribute their elements in order - the array itself its elements at that moment (the source view is re-fetched after the reservation: no read through a stale block) - any other part is appended as one element; exact new length; elements already present unchanged; returns arr" % n,
+         "h_array_concat", functions=["cfun_array_concat"], mutants=([M_STALE("concat"), M_NORES] if n > 1 else [M_ARG0("concat")]), **kw, **dd)
+    unit("lib.array.join.a%d" % n, "array/join with %d argument(s): every part must be an array or tuple (else raises) and contributes its elements in order - the array itself its elements at that moment (view re-fetched after the reservation); exact new length; elements already present unchanged; returns arr" % n,
+         "h_array_join", functions=["cfun_array_join"],
+         mutants=([M_STALE("join"), mut("type-check-dropped", "array.c", "        if (!janet_indexed_view(argv[i], &vals, &len)) {\n            janet_panicf(\"expected indexed type for argument %d, got %v\", i, argv[i]);\n        }\n        if (array->data == vals) {", "        janet_indexed_view(argv[i], &vals, &len);\n        if (array->data == vals) {", "C17")] if n > 1 else [M_ARG0("join")]), **kw, **dd)
 SELF_DEFECT = ("GENUINE DEFECT on the pinned tree (%s overflow obligation on `array->count + len`, then pointer_dereference 'deallocated dynamic object' on vals[j]): for an array of >= 2^30 elements appended to itself the int32 sum wraps negative, "
                "janet_array_ensure returns without reserving, the first janet_array_push reallocates the block and the loop keeps reading the old one (use after free). Reproduced: /repo/_build/janet -e '(def a (array/new-filled 1073741824 0)) (%s a a)' "
                "-> Segmentation fault (needs ~8 GiB of memory). Repair: compute count + len in int64 and raise 'array overflow' above INT32_MAX before the reservation")
